@@ -127,7 +127,7 @@ def lex(name, text):
 
 
 
-def analyse(name, text, debug=0, R=None, registry=None, keep_tokens=False):
+def analyse(name, text, debug=0, R=None, registry=None, keep_tokens=False, from_disk=False):
     """One file through lexer + registry.  A wall-clock watchdog keeps a worker alive if the code under test spins
     (whether that is a property violation is C05's business, decided there by a step count): the result is then a CRASH
     with the pseudo exception type 'Hang'."""
@@ -137,7 +137,7 @@ def analyse(name, text, debug=0, R=None, registry=None, keep_tokens=False):
     File, Lexer, Context, Registry, CParsingError = _imports()
     r = Result()
     buf = io.StringIO()
-    f = File(name, text)
+    f = File(name, None if from_disk else text)   # from_disk: `name` is a real path and the tool reads it itself
     use_alarm = False
     try:
         old_handler = signal.signal(signal.SIGALRM, _on_alarm)
